@@ -71,7 +71,8 @@ def run_case(rng, idx, tier):
         ev["mixed_pairs"] += 1
     key0 = {"cls": cls.split("+")[0], "pair": "%s|%s" % (O.base_kind(sA), O.base_kind(sB)),
             "max_aspect": O.aspect_bucket(max(O.aspect(sA), O.aspect(sB))),
-            "scene_aspect": O.aspect_bucket(O.scene_aspect(sA, sB))}
+            "scene_aspect": O.aspect_bucket(O.scene_aspect(sA, sB)),
+            "small_scene": bool(max(oA.scale(), oB.scale()) < 0.1)}
     rec = {"cls": "%s|%s|%s|%s" % (names[0], names[1], cls, forced), "nontrivial": cls not in ("free", "far"),
            "sig": repr(pairs.describe(sA, sB, cls, truth)), "sample": pairs.describe(sA, sB, cls, truth)}
     if inconcl:
